@@ -154,7 +154,7 @@ class Page:
         if self.parent is not None:
             parent_breadcrumbs = self.parent.get_breadcrumbs(from_path)
 
-        return parent_breadcrumbs + [(self.title, href.relative(from_path, self.path))]
+        return parent_breadcrumbs + [(self.title, href.relative_url(from_path, self.path))]
 
     def get_template_variables(self) -> Mapping[str, Any]:
         """
@@ -165,7 +165,7 @@ class Page:
             "title": self.title,
             "site_name": self.home_page.title,
             "breadcrumbs": self.get_breadcrumbs(),
-            "css_href": href.relative(self.path, CSS_PATH),
+            "css_href": href.relative_url(self.path, CSS_PATH),
         }
 
     def get_resolve_local_links_stage(
@@ -359,11 +359,11 @@ class HomePage(Page):
             )
 
         serving_page_hrefs = [
-            (num_servings, href.relative(self.path, categories_page.path))
+            (num_servings, href.relative_url(self.path, categories_page.path))
             for num_servings, categories_page in sorted(self.scaled_categories.items())
         ]
 
-        categories_page_href = href.relative(self.path, self.unscaled_categories.path)
+        categories_page_href = href.relative_url(self.path, self.unscaled_categories.path)
 
         return homepage_template.render(
             welcome_message=welcome_message,
@@ -556,12 +556,12 @@ class CategoryPage(Page):
             )
 
         categories = [
-            (categories_page.title, href.relative(self.path, categories_page.path))
+            (categories_page.title, href.relative_url(self.path, categories_page.path))
             for categories_page in self.subcategories
         ]
 
         recipes = [
-            (recipes_page.title, href.relative(self.path, recipes_page.path))
+            (recipes_page.title, href.relative_url(self.path, recipes_page.path))
             for recipes_page in self.recipes
         ]
 
